@@ -204,7 +204,7 @@ def build(u):
             spec += "\n    // and a newly constructed statement is left behind\n    %s::is_new(*final(self))," % name
         # a statement finished with .take() must still carry every clause it was given (C08), dialect-specific ones included; the schema
         # statements' take() (table.index(&mut idx) / .col(&mut def) / .foreign_key(&mut fk) hand the element over with it) carries C14
-        u.fn(f, "impl %s" % name, "take", ret="r", rules=r_take, props=P + (["C08"] if name in ("SelectStatement", "InsertStatement", "UpdateStatement", "DeleteStatement", "WindowStatement") else ["C14"]), key="%s::take" % name, spec=spec)
+        u.fn(f, "impl %s" % name, "take", ret="r", rules=r_take, props=P + (["C08", "C01"] if name in ("SelectStatement", "InsertStatement", "UpdateStatement", "DeleteStatement", "WindowStatement") else ["C14"]), key="%s::take" % name, spec=spec)
         if name == "SelectStatement":
             u.fn(f, "impl SelectStatement", "new", ret="r", props=P, rules=[make_r_sub("R-attr", r"Self::default\(\)", "vdefault_select()")],
                  spec="ensures SelectStatement::is_new(r),")
